@@ -3,6 +3,7 @@ package checks
 import (
 	"fmt"
 	"strings"
+	"time"
 
 	"verifharness/core"
 	"verifharness/hist"
@@ -29,7 +30,7 @@ func randPrintable(r *core.Rng) string {
 }
 
 func checkC06(c *core.Ctx) {
-	c.SetRule("the C05 scenario family (every packet index x stop kinds x pacing x handler speed, cancels, handler/mapper failures, pre-connection failures, read error), one pass per cell, plus ERR packets with arbitrary code (1..65535) and printable/UTF-8 message with and without the #sqlstate marker at random stop points in both pacings; Error() is called immediately after Stream returns in half of the runs and after quiescence in the other half, always before any harness-side cancel; distinct by (history, spec); non-trivial iff the scripted stop was reached")
+	c.SetRule("the C05 scenario family (every packet index x stop kinds x pacing x handler speed, cancels, handler/mapper failures, pre-connection failures, read error), one pass per cell, plus ERR packets with arbitrary code (1..65535) and printable/UTF-8 message with and without the #sqlstate marker at random stop points in both pacings; Error() is called immediately after Stream returns in half of the runs and after quiescence in the other half, always before any harness-side cancel; plus attempts under a context with a near deadline in which the master ends the stream before the deadline and Error() is asked after it has passed; distinct by (history, spec); non-trivial iff the scripted stop was reached")
 	c.Assume("only the implications of the statement are demanded: parser-side failure => Stream != nil; Stream == nil and Error() == nil => cancellation or EOF; Stream == nil after ERR => Error() carries the message")
 	nh := c.N(6, 60)
 	if c.Replay != "" {
@@ -61,6 +62,12 @@ func checkC06(c *core.Ctx) {
 			}
 			c06Run(c, scn, h, l, tables)
 		}
+		for k := 0; k < c.N(12, 60); k++ {
+			n++
+			if c.Mine(n) {
+				c06Deadline(c, hidx, k, h, l, tables)
+			}
+		}
 		// arbitrary ERR packets
 		r := c.Rng(core.StrID("c06err"), uint64(hidx))
 		nerr := c.N(1500, 30000) / nh
@@ -75,6 +82,65 @@ func checkC06(c *core.Ctx) {
 			}
 			c06Run(c, stopScn{Hist: hidx, Spec: f, Rep: i, Wrapped: i%4 != 0}, h, l, tables)
 		}
+	}
+}
+
+// c06Deadline: the attempt runs under a context with a near deadline; the
+// master ends the stream (ERR packet or lost connection) before the deadline;
+// the caller asks Error() only after the deadline has passed. The reason the
+// stream ended is what it was when it ended.
+func c06Deadline(c *core.Ctx, hidx, k int, h *hist.History, l *hist.Layout, tables []*hist.Table) {
+	start := hist.Pos{File: h.FirstFile, Off: 4}
+	r := c.Rng(core.StrID("c06deadline"), uint64(hidx), uint64(k))
+	plan := sim.Plan(l, start)
+	at := r.Intn(len(plan) + 1)
+	kind := []string{"err", "fin", "rst"}[k%3]
+	msg := randPrintable(r)
+	s, err := run.NewSession(l, tables, 607, start, true)
+	if err != nil {
+		c.Inconclusive("cannot start master: " + err.Error())
+		return
+	}
+	defer s.Close()
+	for _, g := range run.LibGoroutines(nil) {
+		s.Abandon(g.ID)
+	}
+	f := sim.Fault{}
+	switch kind {
+	case "err":
+		f.Kind, f.Code, f.Msg, f.State = sim.FErr, uint16(1+r.Intn(65535)), msg, "HY000"
+	case "fin":
+		f.Kind = sim.FClose
+	default:
+		f.Kind = sim.FReset
+	}
+	s.M.SetScripts(&sim.Script{End: sim.EndEOF, Faults: map[int]sim.Fault{at: f}})
+	hs := run.NoFaults()
+	hs.DeadlineIn = 150 * time.Millisecond
+	res := s.Attempt(hs, nil, maxWait)
+	scn := map[string]interface{}{"mode": "deadline-after-the-end", "hist": hidx, "k": k, "kind": kind, "at": at}
+	if res.Verdict != run.Returned {
+		c.Cell("stream-not-returned(reported under C05)")
+		return
+	}
+	if s.Ctx().Err() != nil {
+		c.Cell("deadline:fired-before-the-stream-ended(not judged)")
+		return
+	}
+	<-s.Ctx().Done() // the deadline passes after the stream has ended
+	er := s.CallError(maxWait)
+	c.Case(core.HashAdd(layoutHash(l), []byte(fmt.Sprint("deadline", kind, at))), true)
+	c.Cell("deadline-passed-between-end-and-Error()")
+	if er.Verdict != run.Returned {
+		c.Cell("error-call-blocked(reported under C05)")
+		return
+	}
+	if res.Err == nil && er.Err == nil {
+		c.Violation("c06:clean-end-after-deadline:"+kind, fmt.Sprintf("the master ended the stream by %s at packet %d before the context's deadline; Error(), asked after the deadline had passed, reports a clean end", kind, at), witnessOf(scn, h, s, nil))
+		return
+	}
+	if res.Err == nil && kind == "err" && !strings.Contains(er.Err.Error(), msg) {
+		c.Violation("c06:err-message-lost-after-deadline", fmt.Sprintf("Error() = %q does not carry the master's message %q", er.Err.Error(), msg), witnessOf(scn, h, s, nil))
 	}
 }
 
